@@ -292,7 +292,7 @@ ExtractTypedef ==
       LET s == StmtAt(M.body, ip)
           name == FreshName("t")
           td == [n |-> name, ty |-> s.ty, dflt |-> IF moveD THEN s.dflt ELSE "", units |-> IF moveU THEN s.units ELSE ""]
-          s1 == [s EXCEPT !.ty = [p |-> "", n |-> name, rng |-> "", en |-> << >>, base |-> NoBase],
+          s1 == [s EXCEPT !.ty = [p |-> "", n |-> name, rng |-> "", len |-> "", en |-> << >>, base |-> NoBase],
                           !.dflt = IF moveD THEN "" ELSE s.dflt, !.units = IF moveU THEN "" ELSE s.units]
           parent == SubSeq(ip, 1, Len(ip) - 1)
       IN /\ s.k \in {"leaf", "leaflist"} /\ IsPlainPath(ip) /\ s.ty.p = "" /\ s.ty.n \in Builtins
@@ -311,7 +311,7 @@ ChainTypedef ==
       LET t == M.tds[i]
           name == FreshName("t")
           lower == [t EXCEPT !.n = name]
-          upper == [n |-> t.n, ty |-> [p |-> "", n |-> name, rng |-> "", en |-> << >>, base |-> NoBase], dflt |-> "", units |-> ""]
+          upper == [n |-> t.n, ty |-> [p |-> "", n |-> name, rng |-> "", len |-> "", en |-> << >>, base |-> NoBase], dflt |-> "", units |-> ""]
       IN Step([ms EXCEPT ![Main] = [M EXCEPT !.tds = [@ EXCEPT ![i] = upper] \o << lower >>]])
 
 \* T3: what a leaf inherits from its typedef chain is stated on the leaf itself, or a stated value that
